@@ -19,15 +19,15 @@ import (
 
 // ReplayResult describes the attempt to reproduce a failed obligation on the real code.
 type ReplayResult struct {
-	Attempted bool   `json:"attempted"`
-	Confirmed bool   `json:"confirmed"`
-	Note      string `json:"note"`
-	Driver    string `json:"driver,omitempty"`
-	Input     string `json:"input,omitempty"`
-	Panic     string `json:"panic,omitempty"`
-	Godebug   string `json:"godebug,omitempty"`
-	Command   string `json:"command,omitempty"`
-	Output    string `json:"output,omitempty"`
+	Attempted bool    `json:"attempted"`
+	Confirmed bool    `json:"confirmed"`
+	Note      string  `json:"note"`
+	Driver    string  `json:"driver,omitempty"`
+	Input     string  `json:"input,omitempty"`
+	Panic     string  `json:"panic,omitempty"`
+	Godebug   string  `json:"godebug,omitempty"`
+	Command   string  `json:"command,omitempty"`
+	Output    string  `json:"output,omitempty"`
 	Seconds   float64 `json:"seconds,omitempty"`
 }
 
